@@ -158,8 +158,12 @@ def history(rng, nops, blink=True, graphic=True, sized=True, ops_weights=None, b
     parts = line.split(" ; ")
     for k in range(1, len(parts)):
         w0 = parts[k].split(" ", 1)[0]
-        if w0 in ("mv", "ti", "hc", "sc", "sv", "rs", "er", "me", "md", "nb", "ab", "re", "da", "we", "ws") and rng.random() < 0.125:
-            parts[k] = "lv " + parts[k]
+        if w0 in ("mv", "ti", "hc", "sc", "sv", "rs", "er", "me", "md", "nb", "ab", "re", "da", "we", "ws"):
+            x = rng.random()
+            if x < 0.125:
+                parts[k] = "lv " + parts[k]
+            elif x < 0.19:
+                parts[k] = "ux " + parts[k]       # from a destructor, while an unrelated exception is unwinding
     return " ; ".join(parts)
 
 
@@ -178,7 +182,7 @@ def _history(rng, nops, blink=True, graphic=True, sized=True, ops_weights=None, 
     weights = ops_weights or {"we": 30, "ws": 10, "mv": 20, "sv": 4, "rs": 4, "er": 8, "hc": 3, "sc": 3, "me": 2,
                               "md": 2, "ti": 2, "nb": 1, "ab": 1, "sz": 3, "re": 3, "da": 1, "dup": 6}
     if inputs:
-        weights = dict(weights, **{"in": 12, "cl": 2, "rv": 2, "al": 1})
+        weights = dict(weights, **{"in": 12, "cl": 2, "rv": 2, "al": 1, "qw": 4})
     names = list(weights)
     wts = [weights[n] for n in names]
     last = None
@@ -187,6 +191,12 @@ def _history(rng, nops, blink=True, graphic=True, sized=True, ops_weights=None, 
         if o == "dup" and last is not None:
             for _ in range(rng.choice([1, 1, 2, 3])):     # the same operation again - twice or three times now and then
                 parts.append(last)
+            continue
+        if o == "qw":
+            # the application sends a status query through the raw entry point terminal::write (DSR, DA): the terminal
+            # answers on its input side and changes nothing - what the library knows about it stays true
+            q = rng.choice([b"\x1b[6n", b"\x1b[5n", b"\x1b[c", b"\x1b[0c"])
+            parts.append("wr %d %s" % (len(q), " ".join(str(b) for b in q)))
             continue
         if o in ("cl", "rv", "al"):
             # the channel is closed / re-attached / asked whether it is alive: the library writes regardless
